@@ -9,106 +9,16 @@
 use std::collections::BTreeSet;
 
 use chainsim::*;
-use proptest::prelude::*;
 use vcore::{vensure, vensure_eq, vfail, CaseResult, Ctx, Fail, Obs};
 
-#[derive(Clone, Debug)]
-enum Op {
-    /// extend the current branch
-    AddBlocks(Vec<BlockSpec>),
-    /// extend the current branch with n empty blocks
-    AddEmpty(u16),
-    /// tell the wallet the chain tip (model tip minus `behind`, clipped)
-    UpdateTip { behind: u8 },
-    /// scan [from, from+len) where from = base+1 + pick(sel, tip-base)
-    Scan { sel: u32, len: u16 },
-    /// scan the first unscanned gap from its start or its end, `chunk` blocks
-    ScanGap { which: u32, from_end: bool, chunk: u16 },
-    /// rewind the wallet to (max scanned or tip) - depth; `reorg` = the chain abandons the blocks
-    /// above the height the wallet actually rewound to, else the chain keeps them (forget+rescan)
-    Truncate { depth: u8, reorg: bool },
-}
-
-fn arb_op(na: u8, nf: u8, iw: bool, long: bool) -> impl Strategy<Value = Op> {
-    prop_oneof![
-        5 => proptest::collection::vec(arb_block(na, nf, iw, 3, 4), 1..6).prop_map(Op::AddBlocks),
-        if long { 3 } else { 1 } => (if long { 1u16..130 } else { 1u16..12 }).prop_map(Op::AddEmpty),
-        2 => (0u8..3).prop_map(|behind| Op::UpdateTip { behind }),
-        6 => (any::<u32>(), if long { 1u16..160 } else { 1u16..12 }).prop_map(|(sel, len)| Op::Scan { sel, len }),
-        5 => (any::<u32>(), any::<bool>(), if long { 1u16..160 } else { 1u16..10 }).prop_map(|(which, from_end, chunk)| Op::ScanGap { which, from_end, chunk }),
-        2 => (0u8..8, any::<bool>()).prop_map(|(depth, reorg)| Op::Truncate { depth, reorg }),
-    ]
-}
-
-#[derive(Clone, Debug)]
-struct Case {
-    world: WorldSpec,
-    long: bool,
-    ops: Vec<Op>,
-    final_chunk: u16,
-}
-
-fn arb_case(max_ops: usize, p_long: u32) -> impl Strategy<Value = Case> {
-    (arb_world(), prop::bool::weighted(p_long as f64 / 100.0), 1u16..200).prop_flat_map(move |(world, long, final_chunk)| {
-        let iw = world.nu6_3_offset.is_some();
-        let (na, nf) = (world.n_accounts, world.n_foreign);
-        // long mode: receipts, then > 100 empty blocks, then spends, so that the nullifier-tracking floor
-        // (batch > 102 blocks extending the fully-scanned frontier) and nullifier pruning at depth 100 engage
-        let prefix = if long {
-            (
-                proptest::collection::vec(arb_block(na, nf, iw, 3, 4), 1..4),
-                101u16..150,
-                proptest::collection::vec(arb_block(na, nf, iw, 3, 4), 1..4),
-            )
-                .prop_map(|(a, n, b)| vec![Op::AddBlocks(a), Op::AddEmpty(n), Op::AddBlocks(b)])
-                .boxed()
-        } else {
-            Just(vec![]).boxed()
-        };
-        (prefix, proptest::collection::vec(arb_op(na, nf, iw, long), 3..max_ops)).prop_map(move |(mut pre, ops)| {
-            pre.extend(ops);
-            Case { world: world.clone(), long, ops: pre, final_chunk }
-        })
-    })
-}
-
-struct Flags {
-    out_of_order: bool,
-    repeated: bool,
-    spend_before_receipt: bool,
-    rewind_removed_wallet_tx: bool,
-    big_batch: bool,
-    wallet_notes: usize,
+#[derive(Default)]
+struct Stats {
     live_orphan_states: u32,
     summaries: u32,
     no_summary: u32,
-    truncate_refused: u32,
-    deep: bool,
 }
 
-fn gaps(chain: &Chain, ledger: &Ledger) -> Vec<(u32, u32)> {
-    // maximal unscanned ranges [start, end] on the current branch
-    let mut out = vec![];
-    let mut cur: Option<(u32, u32)> = None;
-    for h in chain.base_height + 1..=chain.tip_height() {
-        if ledger.is_scanned_height(chain, h) {
-            if let Some(g) = cur.take() {
-                out.push(g);
-            }
-        } else {
-            cur = Some(match cur {
-                None => (h, h),
-                Some((s, _)) => (s, h),
-            });
-        }
-    }
-    if let Some(g) = cur {
-        out.push(g);
-    }
-    out
-}
-
-fn check_state(w: &SimWallet, chain: &Chain, ledger: &Ledger, f: &mut Flags, step: &str) -> Result<(), Fail> {
+fn check_state(w: &SimWallet, chain: &Chain, ledger: &Ledger, f: &mut Stats, step: &str) -> Result<(), Fail> {
     // (a) balances
     let tip = w.chain_height();
     match w.balances().map_err(|e| Fail::new("summary-error", format!("{step}: get_wallet_summary failed: {e}")))? {
@@ -171,205 +81,46 @@ fn check_state(w: &SimWallet, chain: &Chain, ledger: &Ledger, f: &mut Flags, ste
 
 fn run_case(case: &Case) -> CaseResult {
     match run_case_inner(case) {
-        Err(f) if f.signature == "excluded-tree-conflict" => Ok(Obs::trivial().label("excluded-known:tree-conflict-after-rewind")),
+        // C01 says nothing about scans succeeding; the known tree conflict (listed under C06) is
+        // excluded here by construction and counted.
+        Err(f) if f.signature == SIG_TREE_CONFLICT => Ok(Obs::trivial().label("excluded-known:tree-conflict-after-rewind")),
         r => r,
     }
 }
 
 fn run_case_inner(case: &Case) -> CaseResult {
-    let world = World::new(&case.world);
-    let mut chain = Chain::new(&world);
-    let mut w = SimWallet::new(&world, &chain, false);
-    let mut ledger = Ledger::default();
-    let mut f = Flags {
-        out_of_order: false,
-        repeated: false,
-        spend_before_receipt: false,
-        rewind_removed_wallet_tx: false,
-        big_batch: false,
-        wallet_notes: 0,
-        live_orphan_states: 0,
-        summaries: 0,
-        no_summary: 0,
-        truncate_refused: 0,
-        deep: false,
-    };
-    let mut max_scanned_start: Option<u32> = None;
-    let base = chain.base_height;
-
-    let do_scan = |w: &mut SimWallet, chain: &Chain, ledger: &mut Ledger, f: &mut Flags, from: u32, len: u32, max_start: &mut Option<u32>, step: &str| -> Result<(), Fail> {
-        let len = len.min(chain.tip_height() + 1 - from);
-        if len == 0 {
-            return Ok(());
-        }
-        // classification before the scan
-        if let Some(m) = *max_start {
-            if from < m {
-                f.out_of_order = true;
-            }
-        }
-        *max_start = Some(max_start.map_or(from, |m| m.max(from)));
-        let mut all_scanned = true;
-        for h in from..from + len {
-            if !ledger.is_scanned_height(chain, h) {
-                all_scanned = false;
-            } else {
-                f.repeated = true;
-            }
-            // spend scanned before receipt?
-            if let Some(b) = chain.block_at(h) {
-                for tx in &b.txs {
-                    for s in &tx.spends {
-                        if let Some(n) = s.note {
-                            let note = &chain.notes[n];
-                            if matches!(note.who, Who::Wallet(_)) && !ledger.scanned.contains(&note.block_id) && !(from..from + len).contains(&note.height) {
-                                f.spend_before_receipt = true;
-                            }
-                        }
-                    }
-                }
-            }
-        }
-        let _ = all_scanned;
-        if len > 102 {
-            f.big_batch = true;
-        }
-        match w.scan(&world, chain, from, len) {
-            Ok(_) => {
-                ledger.scan(chain, from, len);
-                Ok(())
-            }
-            Err(e) => {
-                let m = format!("{e:?}");
-                // Known finding (listed under C06, where it belongs): after a rewind below the start of a
-                // range that was scanned out of order, shardtree keeps a stale cached parent hash and
-                // the insertion of the new branch's frontier reports a Conflict. C01 says nothing about
-                // scans succeeding, so the case is excluded here (counted) rather than reported.
-                let sig = if m.contains("PutBlocksCommitmentTree") && m.contains("Conflict") { "excluded-tree-conflict" } else { "scan-failed" };
-                Err(Fail::new(sig, format!("{step}: scanning [{from}, {}) of a consistent chain failed: {m}", from + len)))
-            }
-        }
-    };
-
+    let mut h = Hist::new(&case.world, false);
+    let mut st = Stats::default();
     for (i, op) in case.ops.iter().enumerate() {
-        let step = format!("op#{i} {op:?}");
-        let step = if step.len() > 160 { format!("{}…", &step[..160]) } else { step };
-        match op {
-            Op::AddBlocks(specs) => {
-                for s in specs {
-                    chain.add_block(&world, s);
-                }
-            }
-            Op::AddEmpty(n) => {
-                for _ in 0..*n {
-                    chain.add_block(&world, &BlockSpec::default());
-                }
-            }
-            Op::UpdateTip { behind } => {
-                let tip = chain.tip_height();
-                if tip > base {
-                    // never below what the wallet has scanned (the tip only moves back by truncation)
-                    let max_scanned = ledger.scanned.iter().map(|b| chain.blocks[*b].height).max().unwrap_or(base);
-                    let h = tip.saturating_sub(*behind as u32).max(max_scanned).max(base + 1);
-                    w.update_tip(h).map_err(|e| Fail::new("update-tip-failed", format!("{step}: {e}")))?;
-                }
-            }
-            Op::Scan { sel, len } => {
-                let tip = chain.tip_height();
-                if tip > base {
-                    // the documented flow: the wallet knows the tip before it scans
-                    if w.chain_height().map_or(true, |t| t < tip) {
-                        w.update_tip(tip).map_err(|e| Fail::new("update-tip-failed", format!("{step}: {e}")))?;
-                    }
-                    let from = base + 1 + vcore::pick_index(*sel, (tip - base) as usize) as u32;
-                    do_scan(&mut w, &chain, &mut ledger, &mut f, from, *len as u32, &mut max_scanned_start, &step)?;
-                }
-            }
-            Op::ScanGap { which, from_end, chunk } => {
-                let tip = chain.tip_height();
-                let g = gaps(&chain, &ledger);
-                if !g.is_empty() {
-                    if w.chain_height().map_or(true, |t| t < tip) {
-                        w.update_tip(tip).map_err(|e| Fail::new("update-tip-failed", format!("{step}: {e}")))?;
-                    }
-                    let (s, e) = g[vcore::pick_index(*which, g.len())];
-                    let chunk = (*chunk as u32).min(e - s + 1);
-                    let from = if *from_end { e + 1 - chunk } else { s };
-                    do_scan(&mut w, &chain, &mut ledger, &mut f, from, chunk, &mut max_scanned_start, &step)?;
-                }
-            }
-            Op::Truncate { depth, reorg } => {
-                let max_scanned = ledger.scanned.iter().map(|b| chain.blocks[*b].height).max();
-                let top = max_scanned.unwrap_or(chain.tip_height()).max(base);
-                let h = top.saturating_sub(*depth as u32).max(base);
-                let tr = w.truncate(h);
-                if std::env::var("VERIF_DEBUG").is_ok() {
-                    eprintln!("[debug] truncate({h}) -> {tr:?}");
-                }
-                match tr {
-                    Ok(got) => {
-                        vensure!(got <= h, "truncate-above-request", "{step}: truncate_to_height({h}) returned {got}");
-                        // wallet tx removed?
-                        let removed_wallet_tx = ledger.scanned.iter().any(|b| {
-                            let blk = &chain.blocks[*b];
-                            blk.height > got && blk.txs.iter().any(|t| t.recv.iter().any(|n| matches!(chain.notes[*n].who, Who::Wallet(_))) || t.spends.iter().any(|s| s.note.is_some()))
-                        });
-                        if removed_wallet_tx {
-                            f.rewind_removed_wallet_tx = true;
-                        }
-                        ledger.truncate(&chain, got);
-                        if *reorg {
-                            chain.fork_at(got);
-                        }
-                        max_scanned_start = ledger.scanned.iter().map(|b| chain.blocks[*b].height).max();
-                    }
-                    Err(_) => {
-                        // documented refusals (RequestedRewindInvalid etc.): a no-op for the model
-                        f.truncate_refused += 1;
-                    }
-                }
-            }
-        }
-        if std::env::var("VERIF_DEBUG").is_ok() {
-            let sc: Vec<u32> = ledger.scanned.iter().map(|b| chain.blocks[*b].height).collect();
-            eprintln!("[debug] {step}\n        tip={} wallet_tip={:?} scanned={:?} sizes@tip={:?}", chain.tip_height(), w.chain_height(), sc, chain.sizes_at(chain.tip_height()));
-        }
-        check_state(&w, &chain, &ledger, &mut f, &step)?;
+        let step = step_name(i, op);
+        h.apply(op, &step)?;
+        check_state(&h.w, &h.chain, &h.ledger, &mut st, &step)?;
     }
 
     // Final: scan every remaining gap, then compare with a fresh linear wallet.
-    let tip = chain.tip_height();
+    let tip = h.chain.tip_height();
+    let base = h.base();
     if tip > base {
-        w.update_tip(tip).map_err(|e| Fail::new("update-tip-failed", format!("final: {e}")))?;
-        let mut guard = 0;
-        loop {
-            let g = gaps(&chain, &ledger);
-            let Some((s, e)) = g.first().copied() else { break };
-            let chunk = (case.final_chunk as u32).min(e - s + 1);
-            do_scan(&mut w, &chain, &mut ledger, &mut f, s, chunk, &mut max_scanned_start, "final-scan")?;
-            guard += 1;
-            if guard > 10_000 {
-                vfail!("harness-final-loop", "final scan loop did not terminate");
-            }
-        }
-        check_state(&w, &chain, &ledger, &mut f, "final")?;
+        h.scan_all(case.final_chunk)?;
+        check_state(&h.w, &h.chain, &h.ledger, &mut st, "final")?;
 
-        let mut fresh = SimWallet::new(&world, &chain, false);
+        let mut fresh = SimWallet::new(&h.world, &h.chain, false);
         fresh.update_tip(tip).map_err(|e| Fail::new("update-tip-failed", format!("fresh: {e}")))?;
-        let mut h = base + 1;
-        while h <= tip {
-            let len = 1000.min(tip + 1 - h);
-            fresh.scan(&world, &chain, h, len).map_err(|e| Fail::new("fresh-scan-failed", format!("fresh wallet scan failed: {e:?}")))?;
-            h += len;
+        let mut at = base + 1;
+        while at <= tip {
+            let len = 1000.min(tip + 1 - at);
+            fresh.scan(&h.world, &h.chain, at, len).map_err(|e| Fail::new("fresh-scan-failed", format!("fresh wallet scan failed: {e:?}")))?;
+            at += len;
         }
-        let mined = |w: &SimWallet| -> Vec<(Pool, u8, [u8; 32], u32, u64, Option<[u8; 32]>, Option<u64>, Option<u32>, Option<i64>, Vec<[u8; 32]>)> {
+        type Row = (Pool, u8, [u8; 32], u32, u64, Option<[u8; 32]>, Option<u64>, Option<u32>, Option<i64>, Vec<[u8; 32]>);
+        let mined = |w: &SimWallet| -> Vec<Row> {
             w.note_rows()
                 .into_iter()
                 .filter(|r| r.mined_height.is_some())
                 .map(|r| (r.pool, r.account, r.txid, r.out_index, r.value, r.nf, r.position, r.mined_height, r.scope, r.spent_by_mined))
                 .collect()
         };
-        let a = mined(&w);
+        let a = mined(&h.w);
         let b = mined(&fresh);
         if a != b {
             let sa: BTreeSet<_> = a.iter().collect();
@@ -381,31 +132,32 @@ fn run_case_inner(case: &Case) -> CaseResult {
                 sb.difference(&sa).take(3).collect::<Vec<_>>()
             );
         }
-        if !ledger.has_live_orphans(&chain, tip) {
-            let ba = w.balances().map_err(|e| Fail::new("summary-error", e))?;
+        if !h.ledger.has_live_orphans(&h.chain, tip) {
+            let ba = h.w.balances().map_err(|e| Fail::new("summary-error", e))?;
             let bb = fresh.balances().map_err(|e| Fail::new("summary-error", e))?;
             vensure_eq!(ba, bb, "balance-differs-from-linear-wallet", "balances after full scan vs fresh linear wallet");
         }
     }
 
-    f.wallet_notes = ledger.known_notes.len();
-    f.deep = chain.tip_height() - base > 100;
-    let nontrivial = f.wallet_notes > 0 && (f.out_of_order || f.repeated || f.spend_before_receipt || f.rewind_removed_wallet_tx || f.big_batch);
+    let f = &h.flags;
+    let wallet_notes = h.ledger.known_notes.len();
+    let deep = h.chain.tip_height() - base > 100;
+    let nontrivial = wallet_notes > 0 && (f.out_of_order || f.repeated || f.spend_before_receipt || f.rewind_removed_wallet_tx || f.big_batch);
     Ok(Obs::new(nontrivial)
-        .label_if(f.wallet_notes > 0, "has-wallet-notes")
+        .label_if(wallet_notes > 0, "has-wallet-notes")
         .label_if(f.out_of_order, "out-of-order")
         .label_if(f.repeated, "repeated-range")
         .label_if(f.spend_before_receipt, "spend-before-receipt")
         .label_if(f.rewind_removed_wallet_tx, "rewind-removes-wallet-tx")
         .label_if(f.big_batch, "batch>102")
-        .label_if(f.deep, "chain>100")
-        .label_if(f.live_orphan_states > 0, "live-orphan-state")
+        .label_if(deep, "chain>100")
+        .label_if(st.live_orphan_states > 0, "live-orphan-state")
         .label_if(f.truncate_refused > 0, "truncate-refused")
         .label_if(case.world.nu6_3_offset.is_some(), "ironwood-world")
-        .count("summaries-compared", f.summaries as u64)
-        .count("states-without-summary", f.no_summary as u64)
-        .count("live-orphan-states", f.live_orphan_states as u64)
-        .count("wallet-notes", f.wallet_notes as u64))
+        .count("summaries-compared", st.summaries as u64)
+        .count("states-without-summary", st.no_summary as u64)
+        .count("live-orphan-states", st.live_orphan_states as u64)
+        .count("wallet-notes", wallet_notes as u64))
 }
 
 fn main() {
